@@ -118,6 +118,19 @@ def member_call(m: 'M.Machine', node: dict, obj_loc: 'M.Loc', name: str, arg_nod
             return len(obj) == 0
         if name in ('size', 'length'):
             return len(obj)
+        if name in ('assign', 'append', 'operator+=', 'push_back'):
+            a = _val(m, m.args_of(arg_nodes)[0])
+            if not isinstance(a, str):
+                raise Unsupported(f'std::string::{name} with {type(a).__name__}')
+            m.note_access(obj_loc, True)
+            m.store(obj_loc, a if name == 'assign' else obj + a)
+            return obj_loc
+        if name == 'clear':
+            m.note_access(obj_loc, True)
+            m.store(obj_loc, '')
+            return None
+        if name == 'c_str':
+            return obj
         raise Unsupported(f'std::string::{name}')
     if isinstance(obj, M.MapV):
         args = [_val(m, a) for a in m.args_of(arg_nodes)]
@@ -133,6 +146,14 @@ def member_call(m: 'M.Machine', node: dict, obj_loc: 'M.Loc', name: str, arg_nod
             return None
         if name == 'size':
             return len(obj.items)
+        if name == 'find':
+            if args[0] in obj.items:
+                return M.MapIterV(obj, M.PairV(args[0], obj.items[args[0]]))
+            return M.MapIterV(obj, None)
+        if name in ('end', 'cend'):
+            return M.MapIterV(obj, None)
+        if name == 'empty':
+            return len(obj.items) == 0
         raise Unsupported(f'std::map::{name}')
     if isinstance(obj, M.OptV):
         if name == 'has_value':
@@ -166,11 +187,37 @@ def member_call(m: 'M.Machine', node: dict, obj_loc: 'M.Loc', name: str, arg_nod
             if not obj.owns:
                 raise M.CppThrow('std::system_error', 'unlock of unowned lock')
             m.unlock(obj)
+            m.note_access(obj_loc, True)        # the lock object's own state is written after the mutex is free
             return None
-        if name == 'lock':
+        if name in ('lock', 'lock_shared'):
             m.lock(obj)
+            m.note_access(obj_loc, True)
             return None
+        if name == 'try_lock':
+            mv = m.load(obj.mutex)
+            if m.can_take(mv, obj.shared, m.tid()):
+                m.lock(obj, wait=False)
+                return True
+            return False
+        if name == 'release':
+            obj.owns = False
+            return M.PtrV(obj.mutex)
         raise Unsupported(f'unique_lock::{name}')
+    if isinstance(obj, M.MutexV):
+        # direct use of the mutex (no RAII wrapper): a transient lock object stands for the thread's hold
+        shared = name.endswith('_shared')
+        if name in ('lock', 'lock_shared'):
+            m.lock(M.UniqueLockV(obj_loc, False, shared))
+            return None
+        if name in ('unlock', 'unlock_shared'):
+            m.unlock(M.UniqueLockV(obj_loc, True, shared))
+            return None
+        if name in ('try_lock', 'try_lock_shared'):
+            if m.can_take(obj, shared, m.tid()):
+                m.lock(M.UniqueLockV(obj_loc, False, shared), wait=False)
+                return True
+            return False
+        raise Unsupported(f'mutex::{name}')
     if isinstance(obj, M.UniquePtrV):
         if name == 'reset':
             if obj.ptr is not None:
@@ -262,10 +309,32 @@ def operator_call(m: 'M.Machine', node: dict, op: str, arg_nodes: List[dict], wa
                 return lhs
             cur.has, cur.val = True, rhs
             return lhs
+        if isinstance(cur, M.UniqueLockV):       # move assignment: release what is held, take over the source
+            rhs = m.args_of([rhs_node])[0]
+            src = m.load(rhs) if isinstance(rhs, M.Loc) else rhs
+            if not isinstance(src, M.UniqueLockV):
+                raise Unsupported('unique_lock = ' + type(src).__name__)
+            if cur.owns:
+                m.unlock(cur)
+            m.note_access(lhs, True)
+            cur.mutex, cur.owns, cur.shared = src.mutex, src.owns, src.shared
+            src.mutex, src.owns = None, False
+            return lhs
+        if isinstance(cur, str) and op == 'operator=':
+            m.note_access(lhs, True)
         rhs = m.args_of([rhs_node])[0]
         v = m.copy_value(m.load(rhs)) if isinstance(rhs, M.Loc) else rhs
         m.store(lhs, v)
         return lhs
+    if op == 'operator+=':
+        lhs = m.lv(obj_node)
+        cur = m.load(lhs)
+        a = _val(m, m.args_of(rest)[0])
+        if isinstance(cur, str) and isinstance(a, str):
+            m.note_access(lhs, True)
+            m.store(lhs, cur + a)
+            return lhs
+        raise Unsupported('operator+= on ' + type(cur).__name__)
     if op == 'operator()':
         obj_loc = m.lv(obj_node) if obj_node.get('valueCategory') != 'prvalue' else \
             M.Loc(m.rv(obj_node), 'callee')
@@ -293,6 +362,10 @@ def operator_call(m: 'M.Machine', node: dict, op: str, arg_nodes: List[dict], wa
             return M.PtrV(obj.ptr)
         if isinstance(obj, M.OptV):
             return M.PtrV(M.Loc(obj.val, 'optional-value'))
+        if isinstance(obj, M.MapIterV):
+            if obj.entry is None:
+                raise Unsupported('dereference of end()')
+            return M.PtrV(M.Loc(obj.entry, 'map-entry'))
         raise Unsupported(f'operator-> on {type(obj).__name__}')
     if op == 'operator*':
         obj = _val(m, m.lv(obj_node) if obj_node.get('valueCategory') != 'prvalue' else m.rv(obj_node))
